@@ -119,6 +119,7 @@ T_C_OVER = "compress_float_int32_overflow"     # S09: non-finite or max|x|*10^de
 T_C_UNPACK = "compress_float_factor_unpackable"  # decimals >= 20: factor 10**d does not fit msgpack / float32
 T_C_HANG = "compress_float_nonterminating"     # decimals needed > what np.round can do (10**d overflows)
 T_C_EMPTY = "compress_empty_array"
+T_BE = "bigendian_64bit_or_float16_input"      # TypeCode.from_dtype compares dtype == np.int64 byte-order sensitively
 
 REJECT = (ValueError, OverflowError, IndexError)
 LOOP_BOUND = 2000
@@ -223,6 +224,9 @@ def arr_desc(x):
     return {"dtype": str(x.dtype.name), "n": int(x.shape[0]), "values": vals[:80], "flags": flags}
 
 
+_CTX = [None]
+
+
 def variant(rng, a, allow=True):
     """Same values as a strided / big-endian / read-only view (sometimes)."""
     r = rng.random()
@@ -233,6 +237,8 @@ def variant(rng, a, allow=True):
         big[::2] = a
         return big[::2]
     if r < 0.14 and a.dtype.itemsize > 1:
+        if a.dtype.name in ("int64", "uint64", "float16") and not _CTX[0].allowed(T_BE):
+            return a
         return a.astype(a.dtype.newbyteorder(">"))
     b = a.copy()
     b.flags.writeable = False
@@ -486,18 +492,30 @@ def delta_class(x, src, origin):
     """True if Delta (src_type=src, origin) gets a value it cannot hold: a value outside src, or
     value-origin leaving the input dtype while src is wider than the input dtype."""
     vals = x.tolist()
-    if not vals:
-        return False
-    T = TC_OF[src] if src else TC_OF[x.dtype.name]
-    if not fits(vals, T):
-        return True
+    D = x.dtype.name
+    T = TC_OF[src] if src else TC_OF[D]
     if origin is not None and not fits([origin], T):
         return True
-    D = x.dtype.name
-    if np.dtype(T).itemsize > np.dtype(D).itemsize:
-        o = vals[0] if origin is None else origin
-        if not fits([v - o for v in vals], D):
+    if not vals:
+        return False
+    if not fits(vals, T):
+        return True
+    o = vals[0] if origin is None else origin
+    signed = lambda name: not name.startswith("u")
+    if origin is None:
+        # the origin is kept as a numpy scalar of the input type and added to the src_type output on decoding
+        if signed(D) and not signed(T):
             return True
+        if D == "uint64" and signed(T):
+            return True
+    if D == "uint64":
+        # value-origin wraps in uint64 for v < origin; np.diff(prepend=0) then promotes uint64+int64 to float64,
+        # and a float64 difference outside int32 is not reduced modulo 2^32 by astype(int32)
+        w = [v - o for v in vals]
+        if min(w) < 0 or not fits([w[0]] + [b - a for a, b in zip(w, w[1:])], "int32"):
+            return True
+    if np.dtype(T).itemsize > np.dtype(D).itemsize and not fits([v - o for v in vals], D):
+        return True
     return False
 
 
@@ -583,7 +601,7 @@ def roundtrip(ctx, chain, x):
         for e in chain:
             ctx.op("encode:" + kind_of(e))
             data = e.encode(data)
-    except REJECT as ex:
+    except REJECT + (KeyError,) as ex:
         ctx.exc(ex)
         return "rejected", ex
     encoded = data
@@ -868,7 +886,10 @@ def case_delta(rng, ctx):
     if delta_class(x, src, origin) and not ctx.allowed(T_DELTA):
         src = None
         if delta_class(x, src, origin):
-            origin = None
+            origin = None if (n > 0 or empty_ok) else 0
+        if delta_class(x, src, origin):
+            x = x.astype(TC_OF[D])          # same values in the storage type
+            D = x.dtype.name
     unrep = delta_class(x, src, origin)
     spec = ("Delta", {"src_type": type_param(rng, src), "origin": origin})
     ctx.log("Delta", spec[1], arr_desc(x))
@@ -951,6 +972,10 @@ def gen_int_chain(rng, k, final_bytes):
             specs.append(("ByteArray", {"type": None}))
             break
         kind = pick(rng, ["Delta", "RunLength", "IntegerPacking"])
+        if kind == "IntegerPacking" and specs and specs[-1][0] == "IntegerPacking":
+            # IntegerPacking is defined on 32-bit integers (its decode() infers the packed type from the dtype it
+            # receives and always returns int32): packing a packed array is not a type-correct chain
+            kind = pick(rng, ["Delta", "RunLength"])
         if kind == "IntegerPacking":
             specs.append((kind, {"byte_count": int(pick(rng, [1, 2])), "src_size": None,
                                  "is_unsigned": pick(rng, [None, None, False])}))
@@ -979,7 +1004,7 @@ def roundtrip_specs(ctx, specs, x):
             chain.append(e)
             ctx.op("encode:" + spec[0])
             data = e.encode(data)
-    except REJECT as ex:
+    except REJECT + (KeyError,) as ex:
         ctx.exc(ex)
         return "rejected", ex, chain
     encoded = data
@@ -1052,6 +1077,15 @@ def case_chain(rng, ctx):
     if specs[0][0] == "IntegerPacking" and not ctx.allowed(T_PACK) and not fits(vals, "int32"):
         x = np.array([v if v <= I32[1] else v - 2**31 for v in vals], dtype=D)
         vals = x.tolist()
+    wrap = lambda v: ((v + 2**31) % 2**32) - 2**31
+    while specs[0][0] == "IntegerPacking" and vals and packed_length(
+            [wrap(v) for v in vals], specs[0][1]["byte_count"],
+            min(vals) >= 0 if specs[0][1]["is_unsigned"] is None else False) > PACK_GUARD:
+        specs = specs[1:] or [("ByteArray", {"type": None})]      # size guard of the harness
+        ctx.note("chain_packing_stage_dropped_by_size_guard")
+    if specs[0][0] == "Delta" and delta_class(x, None, None) and not ctx.allowed(T_DELTA):
+        x = x.astype(TC_OF[D])
+        D = x.dtype.name
     x = variant(rng, x)
     k0 = specs[0][0]
     if k0 in ("ByteArray", "RunLength"):
@@ -1240,7 +1274,9 @@ def case_compress(rng, ctx):
     cls = None
     if kind == "int":
         x = variant(rng, gen_ints(rng, ctx, beyond32=True, allow_empty=empty_ok))
-        must = int_compress_representable(x.tolist())
+        # inside the documented storage type -> must work; inside the range compress() could re-type to
+        # (uint32 for a non-negative int64 array) -> may work; otherwise it has to be rejected
+        must = fits(x.tolist(), TC_OF[x.dtype.name])
     elif kind == "str":
         x = gen_strings(rng, ctx, allow_empty=empty_ok)
         must = True
@@ -1297,6 +1333,8 @@ def case_serialize(rng, ctx):
     else:
         x = gen_ints(rng, ctx, allow_empty=False, small=True)
         x = np.abs(x.astype(np.int64) % 120).astype(x.dtype)      # representable everywhere
+        if kind == "Delta" and not ctx.allowed(T_DELTA):
+            x = x.astype(TC_OF[x.dtype.name])
         D, n = x.dtype.name, len(x)
         if kind == "ByteArray":
             p = {"type": type_param(rng, pick(rng, [D, "int32"])) if explicit else None}
@@ -1573,3 +1611,327 @@ def case_file(rng, ctx):
         if st != "ok":
             ctx.fail("representable_accepted", "compress(file, %r) / write / read raised %s: %s" % (tol_arg, type(val).__name__, val))
         compare(gc_, "file compressed (%r), written and read" % tol_arg, tol)
+
+
+# ================================================================= dispatch
+_CASES = {
+    "bytearray": case_bytearray, "fixedpoint": case_fixedpoint, "interval": case_interval,
+    "runlength": case_runlength, "delta": case_delta, "packing": case_packing,
+    "stringarray": case_stringarray, "chain": case_chain, "compress": case_compress,
+    "serialize": case_serialize, "column": case_column, "file": case_file,
+}
+
+
+def run_case(stratum, rng, ctx):
+    _CTX[0] = ctx
+    _CASES[stratum](rng, ctx)
+
+
+# ================================================================= oracle audit
+class _Probe(Exception):
+    pass
+
+
+class _FakeCtx:
+    """Minimal ctx for auditing the judges: fail() raises _Probe."""
+
+    def __init__(self):
+        self.n = 0
+
+    def oracle(self, *_a, **_k):
+        self.n += 1
+
+    def note(self, *_a, **_k):
+        pass
+
+    def fail(self, oracle, msg, **_k):
+        raise _Probe(oracle)
+
+
+def _flags(fn):
+    try:
+        fn()
+    except _Probe as p:
+        return str(p)
+    return None
+
+
+def selftest(ctx):
+    # range tables against numpy, storage-type table, brute force of fits()
+    for dt in INT_DTYPES:
+        info = np.iinfo(dt)
+        assert irange(dt) == (int(info.min), int(info.max)), dt
+        lo, hi = irange(dt)
+        for v in (lo - 1, lo, lo + 1, -1, 0, 1, hi - 1, hi, hi + 1):
+            ok = True
+            try:
+                np.array([v], dtype=dt)
+            except OverflowError:
+                ok = False
+            assert fits([v], dt) == ok, (dt, v)
+    assert tc_range("int64") == I32 and tc_range("uint64") == (0, 2**32 - 1) and tc_range("uint8") == (0, 255)
+    for name, code in TC_CODE.items():
+        assert TC_OF[name] == name and isinstance(code, int)
+    # comparators: exhaustive over all arrays of length <= 3 over {-1,0,1}: equal iff identical lists
+    f = _FakeCtx()
+    vals = [-1, 0, 1]
+    arrays = [()] + [(a,) for a in vals] + [(a, b) for a in vals for b in vals] + [(a, b, c) for a in vals for b in vals for c in vals]
+    for p in arrays:
+        for q in arrays:
+            r = _flags(lambda: judge_ints(f, "o", np.array(p, dtype=np.int8), np.array(q, dtype=np.int64), "t"))
+            assert (r is None) == (p == q), (p, q, r)
+    assert _flags(lambda: judge_ints(f, "o", np.array([2**32 - 1], dtype=np.uint32), np.array([-1], dtype=np.int32), "t")) == "o"
+    assert _flags(lambda: judge_ints(f, "o", np.array([1.0]), np.array([1]), "t")) == "o"
+    assert _flags(lambda: judge_strs(f, "o", np.array(["a", ""]), np.array(["a", ""]), "t")) is None
+    assert _flags(lambda: judge_strs(f, "o", np.array(["a", "b"]), np.array(["a", ""]), "t")) == "o"
+    # float comparator: NaN<->NaN, inf identical, finite within bound
+    nan, inf = float("nan"), float("inf")
+    x = np.array([nan, inf, -inf, 1.0, 0.0])
+    assert _flags(lambda: judge_floats(f, "o", x.copy(), x, 0.0, "t")) is None
+    for i, wrong in enumerate([0.0, -inf, inf, 1.0 + 1e-9, 1e-300]):
+        y = x.copy()
+        y[i] = wrong
+        assert _flags(lambda: judge_floats(f, "o", y, x, 1e-12 if i == 3 else 0.0, "t")) == "o", i
+    y = x.copy()
+    y[3] = 1.0004
+    assert _flags(lambda: judge_floats(f, "o", y, x, fp_bound(x, 1000), "t")) is None
+    y[3] = 1.0006
+    assert _flags(lambda: judge_floats(f, "o", y, x, fp_bound(x, 1000), "t")) == "o"
+    assert _flags(lambda: judge_floats(f, "o", np.array([-2147483648.0]), np.array([nan]), 1.0, "t")) == "o"
+    # compress judge on the literal S09 outcome and on exact / in-tolerance outcomes
+    s09 = np.array([0.001234567, 123456.789, 5.5])
+    assert _flags(lambda: judge_compress_floats(f, s09.copy(), s09, 1e-6, "t")) is None
+    assert _flags(lambda: judge_compress_floats(f, s09 * (1 + 5e-7), s09, 1e-6, "t")) is None
+    assert _flags(lambda: judge_compress_floats(f, s09 * (1 + 2e-6), s09, 1e-6, "t")) == "compress_within_tolerance"
+    assert _flags(lambda: judge_compress_floats(f, np.array([0.001234567, -2.147483648, -2.147483648]), s09, 1e-6, "t")) == "compress_within_tolerance"
+    assert _flags(lambda: judge_compress_floats(f, np.array([1.5, -214748364.8]), np.array([1.5, nan]), 1e-6, "t")) == "unrepresentable_rejected_or_lossless"
+    assert _flags(lambda: judge_compress_floats(f, np.array([1e-9, 2.0]), np.array([0.0, 2.0]), 1e-1, "t")) == "compress_within_tolerance"
+    # class predicates
+    over, band = fp_classify(np.array([1.0, nan, inf, 2147483.0, 2147483.647, 2147483.6485, 2147484.0, -3e6]), 1000)
+    assert over.tolist() == [False, True, True, False, False, False, True, True], over.tolist()
+    assert band.tolist() == [False, False, False, False, True, True, False, False], band.tolist()
+    xs = fp_sanitize(np.array([1.0, nan, 2147483.647, 5e6]), 1000, keep_over=False)
+    o2, b2 = fp_classify(xs, 1000)
+    assert not o2.any() and not b2.any() and xs[0] == 1.0
+    # decimal places: brute force on exact decimals k/10^d (d = 0..4): the reference never needs more than d
+    for d in range(5):
+        for k in (1, 7, 123, 99999, 100001):
+            v = k / 10.0**d
+            r = ref_decimals(np.array([v, v]), 1e-9)
+            assert r is not None and r <= d, (k, d, r)
+            r = ref_decimals(np.array([v, v]), 1e-1)
+            assert r is not None and r <= d
+    assert ref_decimals(np.array([0.001234567, 123456.789]), 1e-6) >= 8
+    assert ref_decimals(np.array([1e-320, 2.5]), 1e-6) is None
+    assert compress_float_class(np.array([0.001234567, 123456.789, 5.5]), 1e-6) == T_C_OVER
+    assert compress_float_class(np.array([1.5, nan]), 1e-6) == T_C_OVER
+    assert compress_float_class(np.array([1.5e-25, 2.5e-25]), 1e-6) == T_C_UNPACK
+    assert compress_float_class(np.array([1e-320, 2.5]), 1e-6) == T_C_HANG
+    assert compress_float_class(np.array([1.2345678e-35, 2.5], dtype=np.float32), 1e-6) == T_C_HANG
+    assert compress_float_class(np.array([12.345, -7.5, 0.0]), 1e-6) is None
+    assert compress_float_class(np.array([], dtype=np.float64), 1e-6) == T_C_EMPTY
+    # delta class: brute force against exact modular arithmetic of the documented algorithm
+    assert delta_class(np.array([2**40, 1]), None, None) and not delta_class(np.array([5, 1]), None, None)
+    assert delta_class(np.array([-128, 127], dtype=np.int8), "int32", None)
+    assert not delta_class(np.array([-128, 127], dtype=np.int8), None, None)
+    assert not delta_class(np.array([0, 2**32 - 1, 7], dtype=np.uint32), None, None)
+    assert delta_class(np.array([1, 1, 200], dtype=np.int32), "int8", None)
+    assert delta_class(np.array([5, 3], dtype=np.uint16), "int32", None)
+    assert delta_class(np.array([5, 1], dtype=np.uint64), None, None) and not delta_class(np.array([1, 5], dtype=np.uint64), None, None)
+    assert delta_class(np.array([1, 2**32 - 2], dtype=np.uint64), None, None) and delta_class(np.array([], dtype=np.uint8), "int8", 255)
+    assert delta_class(np.array([5, 3], dtype=np.int32), "uint8", None) and not delta_class(np.array([5, 3], dtype=np.int32), "uint8", 0)
+    assert delta_class(np.array([5, 6], dtype=np.uint64), "int8", None) and not delta_class(np.array([5, 3], dtype=np.uint8), "int8", None)
+    # packed length estimate (size guard) against a literal packing
+    assert packed_length([0, 1, 127, 128, -128, -129, 254], 1, False) == 1 + 1 + 2 + 2 + 2 + 2 + 3
+    assert packed_length([255, 256, 510], 1, True) == 2 + 2 + 3
+    assert int_compress_representable([0, 2**32 - 1]) and int_compress_representable([-2**31, 2**31 - 1])
+    assert not int_compress_representable([-1, 2**31]) and not int_compress_representable([2**32])
+    # the loop bound shim
+    it = _BoundedItertools(itertools)
+    try:
+        for _ in it.count(5):
+            pass
+        raise AssertionError("no bound")
+    except LoopBoundExceeded:
+        pass
+    assert list(it.islice(it.count(3), 2)) == [3, 4]
+
+
+# ================================================================= probes (one mechanism each)
+def _single(ctx, spec, x, must, judge_kind, bound=None, over=None):
+    """Minimal context: one encoding, one array, the ordinary verdict logic."""
+    ctx.log(spec[0], {k: repr(v) for k, v in spec[1].items()}, arr_desc(x))
+    ctx.op("probe:" + spec[0])
+    what = "%sEncoding(%s) on %s %s" % (spec[0], ", ".join("%s=%r" % kv for kv in spec[1].items()), x.dtype.name,
+                                        [repr(float(v)) for v in x] if x.dtype.kind == "f" else x.tolist())
+    st, val = roundtrip(ctx, [mk(spec)], x)
+
+    def judge(oracle):
+        if judge_kind == "int":
+            judge_ints(ctx, oracle or "int_roundtrip_exact", val[1], x, what)
+        else:
+            judge_floats(ctx, oracle or "fixedpoint_half_step", val[1], x, bound, what, only=over)
+    settle(ctx, st, val, must, what, judge)
+
+
+def _probe_fixedpoint(ctx):
+    """S08a: NaN / inf / |x*factor| >= 2^31 into FixedPointEncoding.encode."""
+    nan, inf = float("nan"), float("inf")
+    for dt in ("float64", "float32"):
+        for factor, vals in ((1000, [1.5, nan]), (1000, [inf, 2.0]), (1000, [-inf]), (1000, [1e9, 1.0]),
+                             (1, [2.0**31]), (1, [-2.0**31 - 1025]), (100, [-3e8, 0.25])):
+            x = np.array(vals, dtype=dt)
+            over, _ = fp_classify(x, factor)
+            assert over.any()
+            _single(ctx, ("FixedPoint", {"factor": factor, "src_type": None}), x, False, "float", fp_bound(x, factor), over)
+
+
+def _probe_packing(ctx):
+    """S08b: values outside int32 into IntegerPackingEncoding.encode (unchecked astype(int32))."""
+    cases = [("int64", [2**32 + 5, 1], 1, None), ("int64", [-2**32 - 7, -1], 2, None), ("uint64", [2**40, 3], 1, None),
+             ("uint32", [2**32 - 1, 1], 2, False), ("uint32", [2**32 - 3, 0], 1, False), ("int64", [2**31, 2], 2, False)]
+    for dt, vals, bc, uns in cases:
+        _single(ctx, ("IntegerPacking", {"byte_count": bc, "src_size": None, "is_unsigned": uns}), np.array(vals, dtype=dt), False, "int")
+
+
+def _probe_delta(ctx):
+    """Values Delta's src_type cannot hold: 64-bit values beyond 32 bit, explicit narrower src_type,
+    wider src_type than the input type (value - origin wraps in the input type)."""
+    cases = [("int64", [2**40, 1], None, None), ("int64", [1, 2**40], None, None), ("uint64", [1, 2**63 + 5], None, None),
+             ("int32", [1, 1, 200], "int8", None), ("int8", [-128, 127], "int32", None), ("uint16", [5, 3], "int32", None),
+             ("uint64", [5, 1], None, None), ("int32", [5, 3, 200], "uint8", None), ("uint64", [5, 6], "int8", None)]
+    for dt, vals, src, origin in cases:
+        x = np.array(vals, dtype=dt)
+        assert delta_class(x, src, origin)
+        _single(ctx, ("Delta", {"src_type": src, "origin": origin}), x, False, "int")
+
+
+def _probe_empty(ctx):
+    """Empty arrays (row_count 0) into RunLength / Delta / IntegerPacking with omitted parameters."""
+    for dt in ("int32", "uint8", "int64"):
+        x = np.array([], dtype=dt)
+        for spec in (("RunLength", {"src_size": None, "src_type": None}), ("Delta", {"src_type": None, "origin": None}),
+                     ("IntegerPacking", {"byte_count": 1, "src_size": None, "is_unsigned": None})):
+            _single(ctx, spec, x, True, "int")
+
+
+def _probe_bytearray_float(ctx):
+    """float64 values beyond the float32 range into ByteArrayEncoding(type=float32)."""
+    for vals in ([1e300, 0.5], [-1e39], [3.5e38, 1.0]):
+        x = np.array(vals, dtype=np.float64)
+        spec = ("ByteArray", {"type": "float32"})
+        ctx.log(spec[0], spec[1], arr_desc(x))
+        what = "ByteArrayEncoding(type=float32) on float64 %s" % [repr(v) for v in vals]
+        st, val = roundtrip(ctx, [mk(spec)], x)
+        bound = float(np.finfo(np.float32).eps) * np.abs(x)
+        settle(ctx, st, val, False, what, lambda oracle: judge_floats(ctx, oracle, val[1], x, bound, what))
+
+
+def _probe_interval_nonfinite(ctx):
+    nan, inf = float("nan"), float("inf")
+    for vals in ([0.5, nan], [inf, 0.25], [-inf]):
+        for dt in ("float64", "float32"):
+            x = np.array(vals, dtype=dt)
+            spec = ("IntervalQuantization", {"min": 0.0, "max": 1.0, "num_steps": 11, "src_type": None})
+            ctx.log(spec[0], spec[1], arr_desc(x))
+            what = "IntervalQuantizationEncoding(0.0, 1.0, 11) on %s %s" % (dt, [repr(v) for v in vals])
+            st, val = roundtrip(ctx, [mk(spec)], x)
+            nf = ~np.isfinite(x)
+            settle(ctx, st, val, False, what, lambda oracle: judge_floats(ctx, oracle, val[1], x, 0.1001, what, only=nf))
+
+
+def _probe_interval_int(ctx):
+    """Integer min/max with (num_steps-1)*(max-min) >= 2^31: decode multiplies in int32."""
+    for lo, hi, steps, vals in ((-180, 180, 10**7, [-180.0, 0.0, 100.0, 179.9, 180.0]), (0, 10000, 10**6, [1.0, 2500.0, 9999.0])):
+        for dt in ("float64", "float32"):
+            x = np.array(vals, dtype=dt)
+            spec = ("IntervalQuantization", {"min": lo, "max": hi, "num_steps": steps, "src_type": None})
+            ctx.log(spec[0], spec[1], arr_desc(x))
+            what = "IntervalQuantizationEncoding(%d, %d, %d) on %s %s" % (lo, hi, steps, dt, vals)
+            st, val = roundtrip(ctx, [mk(spec)], x)
+            bound = (hi - lo) / (steps - 1) * (1 + 1e-6) + 8 * float(np.finfo(dt).eps) * (hi - lo)
+            settle(ctx, st, val, True, what, lambda oracle: judge_floats(ctx, "interval_one_step", val[1], x, bound, what))
+
+
+def _compress_probe(ctx, arrays, tols, expect_cls, must):
+    for x in arrays:
+        for tol in tols:
+            cls = compress_float_class(x, tol) if x.dtype.kind == "f" else (T_C_EMPTY if len(x) == 0 else None)
+            assert cls == expect_cls, (x, tol, cls)
+            ctx.log("compress", {"tolerance": tol}, arr_desc(x))
+            what = "compress(BinaryCIFData(%s %s), %r)" % (x.dtype.name, [repr(float(v)) for v in x] if x.dtype.kind == "f" else x.tolist(), tol)
+            st, val = compress_roundtrip(ctx, pdbx.BinaryCIFData(x), tol, what)
+            if st == "ok":
+                try:
+                    val = (val[0], pdbx.BinaryCIFData.deserialize(val[1]).array)
+                except (ValueError, OverflowError, IndexError, TypeError) as ex:
+                    st, val = "decode_failed", ex
+
+            def judge(oracle):
+                if x.dtype.kind == "f":
+                    judge_compress_floats(ctx, val[1], x, tol, what)
+                elif x.dtype.kind == "U":
+                    judge_strs(ctx, "compress_exact", val[1], x, what)
+                else:
+                    judge_ints(ctx, "compress_exact", val[1], x, what)
+            settle(ctx, st, val, must, what, judge)
+
+
+def _probe_compress_overflow(ctx):
+    """S09: wide dynamic range or non-finite values; compress() picks a fixed-point factor that overflows int32."""
+    nan, inf = float("nan"), float("inf")
+    arrays = [np.array([0.001234567, 123456.789, 5.5]), np.array([1e300, 2.5]), np.array([1.5, nan, 2.5]),
+              np.array([1.5, inf, 2.5]), np.array([0.001234567, 123456.789, 5.5], dtype=np.float32)]
+    _compress_probe(ctx, arrays[:2], [1e-6], T_C_OVER, False)
+    _compress_probe(ctx, arrays[2:4], [1e-6, 1e-2], T_C_OVER, False)
+    _compress_probe(ctx, arrays[4:], [1e-6], T_C_OVER, False)
+
+
+def _probe_compress_unpackable(ctx):
+    """Magnitudes below ~1e-13: the factor 10**decimals is a Python int beyond 64 bit (msgpack cannot store it)."""
+    arrays = [np.array([1.5e-25, 2.5e-25, 1.5e-25] * 20), np.array([1.5e-30, 2.5e-30] * 30)]
+    _compress_probe(ctx, arrays, [1e-6], T_C_UNPACK, True)
+
+
+def _probe_compress_hang(ctx):
+    """A non-zero value that needs more decimal places than np.round can deliver (10**d overflows the float type)."""
+    arrays = [np.array([1e-320, 2.5]), np.array([1e-305, 1.0]), np.array([1.2345678e-35, 2.5], dtype=np.float32)]
+    _compress_probe(ctx, arrays, [1e-6], T_C_HANG, True)
+
+
+def _probe_compress_empty(ctx):
+    arrays = [np.array([], dtype=np.int32), np.array([], dtype=np.float64), np.array([], dtype="U3")]
+    _compress_probe(ctx, arrays, [1e-6], T_C_EMPTY, True)
+
+
+def _probe_bigendian(ctx):
+    """Big-endian int64 / uint64 / float16 arrays with representable values."""
+    for dt, vals in ((">i8", [5, 1, -3]), (">u8", [5, 1]), (">f2", [1.5, 2.25])):
+        x = np.array(vals, dtype=dt)
+        kinds = [("ByteArray", {"type": None})]
+        if x.dtype.kind != "f":
+            kinds += [("RunLength", {"src_size": None, "src_type": None}), ("Delta", {"src_type": None, "origin": 0})]
+        for spec in kinds:
+            if x.dtype.kind == "f":
+                ctx.log(spec[0], spec[1], arr_desc(x))
+                what = "ByteArrayEncoding() on %s %s" % (dt, vals)
+                st, val = roundtrip(ctx, [mk(spec)], x)
+                settle(ctx, st, val, True, what, lambda oracle: judge_floats(ctx, "float_bytes_exact", val[1], x, 0.0, what))
+            else:
+                _single(ctx, spec, x, True, "int")
+
+
+PROBES = {
+    T_BE: _probe_bigendian,
+    T_FP: _probe_fixedpoint,
+    T_PACK: _probe_packing,
+    T_DELTA: _probe_delta,
+    T_EMPTY: _probe_empty,
+    T_BAF: _probe_bytearray_float,
+    T_IQ_NF: _probe_interval_nonfinite,
+    T_IQ_INT: _probe_interval_int,
+    T_C_OVER: _probe_compress_overflow,
+    T_C_UNPACK: _probe_compress_unpackable,
+    T_C_HANG: _probe_compress_hang,
+    T_C_EMPTY: _probe_compress_empty,
+}
